@@ -4,15 +4,28 @@ from __future__ import annotations
 from . import common, runner, tlc
 
 
+class _Not:
+    """`clause in _Not(S)` holds for every clause outside S"""
+    def __init__(self, s):
+        self.s = set(s)
+
+    def __contains__(self, x):
+        return x not in self.s
+
+
 class PureEntry:
-    def __init__(self, spec: runner.PureSpec):
+    def __init__(self, spec: runner.PureSpec, foreign=()):
         self.spec = spec
+        self.foreign = set(foreign)       # clauses of the module that another property's check owns
+
+    def _owned(self):
+        return _Not(self.foreign) if self.foreign else None
 
     def run(self, tier):
-        return runner.run_pure(self.spec, tier)
+        return runner.run_pure(self.spec, tier, owned=self._owned())
 
     def replay(self, payload):
-        return runner.run_pure(self.spec, "quick", only_cases=[payload["case"]])
+        return runner.run_pure(self.spec, "quick", only_cases=[payload["case"]], owned=self._owned())
 
     def selftest(self):
         return runner.selftest_pure(self.spec)
@@ -520,7 +533,8 @@ class C01Entry:
     """C01 = Lifecycle (round trip: reload, re-serialise, same predictions) + the formula clause (`the stored coefficients are the
     curve that is evaluated`) decided on constructed documents by the Curve module."""
     OWN_CURVE = {"PredictReturns", "StraightLineWithTheFittedSlopeWhenUnsmoothed", "BaseLoadBetweenTheBalancePoints",
-                 "SmoothedCurveBetweenAsymptoteAndShiftedLine", "SmoothingFollowsTheExponentialKernel"}
+                 "SmoothedCurveBetweenAsymptoteAndShiftedLine", "SmoothingFollowsTheExponentialKernel",
+                 "StoredAgainItLoads", "StoredAgainItPredictsTheSame", "StoredAgainItIsTheSameDocument"}
 
     def run(self, tier):
         import json, os
@@ -569,7 +583,7 @@ class LifeEntry:
         return lifeprops.selftest(self.prop)
 
 
-_REG = {"C20": lambda: C20Entry(), "C07": lambda: C07Entry(), "C19": lambda: PureEntry(_agg()), "C06": lambda: C06Entry(), "C18": lambda: C18Entry(), "C14": lambda: PureEntry(_settings()), "C10": lambda: PureEntry(_suff()), "C13": lambda: PureEntry(_split()), "C17": lambda: PureEntry(_prep()), "C16": lambda: PureEntry(_metrics()), "C11": lambda: PureEntry(_curve()), "C12": lambda: C12Entry(), "C08": lambda: PureEntry(_resample("C08")), "C09": lambda: PureEntry(_resample("C09"))}
+_REG = {"C20": lambda: C20Entry(), "C07": lambda: C07Entry(), "C19": lambda: PureEntry(_agg()), "C06": lambda: C06Entry(), "C18": lambda: C18Entry(), "C14": lambda: PureEntry(_settings()), "C10": lambda: PureEntry(_suff()), "C13": lambda: PureEntry(_split()), "C17": lambda: PureEntry(_prep()), "C16": lambda: PureEntry(_metrics()), "C11": lambda: PureEntry(_curve(), foreign={"StoredAgainItLoads", "StoredAgainItPredictsTheSame", "StoredAgainItIsTheSameDocument"}), "C12": lambda: C12Entry(), "C08": lambda: PureEntry(_resample("C08")), "C09": lambda: PureEntry(_resample("C09"))}
 for _p in ("C01", "C02", "C03", "C04", "C05"):
     _REG[_p] = (lambda p: (lambda: LifeEntry(p)))(_p)
 _REG["C01"] = lambda: C01Entry()
